@@ -34,12 +34,12 @@ def run_frame_as_display_answer(ex):
 
 def main(tier):
     ck = Check('C26', tier, ['.'], bodies='image,image/color,math/bits')
-    ck.bounds = {'runFrame': 'the real 17556-iteration loop executed with a concrete iteration count on a quiet machine (CPU executing NOPs from a ROM-only image, interrupts off, outputs detached), divider phase symbolic (all 65536 values) when the timer is off, display answer symbolic: per-component progress counters (PC, divider, RTC sub-second count, APU clock, PPU frame index) each advanced by exactly 17556 cycles; VBlank requested; timer interrupt requested iff the timer overflowed',
+    ck.bounds = {'runFrame': 'the real 17556-iteration loop executed with a concrete iteration count on a quiet machine (CPU executing NOPs from a ROM-only image, interrupts off, outputs detached), divider phase symbolic (all 65536 values) when the timer is off, display answer symbolic: per-component progress counters (PC, divider, RTC sub-second count, APU clock, PPU frame index) each advanced by exactly 17556 cycles; VBlank requested; timer interrupt requested iff the timer overflowed (including a single overflow phased onto the very last cycle of the frame); with the LCD off and with an already-cancelled context the frame still runs all 17556 cycles and hands the frame to the display',
                  'Run': 'context cancelled at its k-th poll, display asking to close after its j-th frame, k and j symbolic in 0..3, with/without display and speakers: number of frames run, number of polls, Cleanup releases each attached output exactly once on every return path',
                  'order': 'a 10-byte program switching the LCD off/on and clearing DIV at known machine cycles: the PPU frame index and the divider at the end of the frame are the values that only "CPU first, then video, ..., then timer in the same iteration" produces',
                  'outside': 'wall-clock cancellation latency; the relative order of memory (DMA/RTC) and audio steps among themselves (they do not interact within a cycle)'}
     ck.stubs_used += ['PPU.renderPixel -> no-op in the frame loop (timing state untouched: C15)', 'Gameboy.runFrame -> its return value (display answer) in the Run harness only; natively the real one runs']
-    jobs = [('.', 'VerifRunFrame', {'timer': t, 'display': d}) for t, d in ((0, 1), (1, 0))] + [('.', 'VerifRunFrameOrder', {})]
+    jobs = [('.', 'VerifRunFrame', {'timer': t, 'display': d, 'lcd': l, 'cancelled': c}) for t, d, l, c in ((0, 1, 1, 0), (1, 0, 1, 1), (2, 1, 0, 1))] + [('.', 'VerifRunFrameOrder', {})]
     ck.run(jobs, timeout_ms=300000, setup=stub_render, max_unwind=64, interp_budget_s=1500)
     rjobs = [('.', 'VerifRun', {'display': d, 'speakers': s}) for d in (0, 1) for s in (0, 1)]
     ck.run(rjobs, timeout_ms=300000, setup=run_frame_as_display_answer, max_unwind=64)
